@@ -98,7 +98,7 @@ def c03_oracle(case, res, variant):
     for k, p in enumerate(pk[:n]):
         if p['dts'] != p['pts']:
             bad('dts_ne_pts', 'packet %d: dts %d != pts %d' % (k, p['dts'], p['pts'])); break
-    for k, p in enumerate(pk[:n]):
+    for k, p in enumerate(pk[:n] if not case.get('oracles', {}).get('skip_priv') else []):
         want = 0x100000 + sends[k].get('i', k)
         if p['priv'] != want:
             bad('app_private', 'packet %d carries p_app_private 0x%x, the picture was submitted with 0x%x' % (k, p['priv'], want)); break
@@ -268,7 +268,7 @@ def diff_detail(a, b):
         if x['hash'] != y['hash']:
             kinds = sorted(set(q['pic_type'] for q, w in zip(pa, pb) if q['hash'] != w['hash']))
             nd = sum(1 for q, w in zip(pa, pb) if q['hash'] != w['hash'])
-            return 'packets', 'first differing packet %d (pts %d, pic_type %d, %d vs %d bytes); %d of %d packets differ; pic_types of differing packets %s' % (k, x['pts'], x['pic_type'], x['size'], y['size'], nd, len(pa), kinds)
+            return ('packets:nonref_only' if kinds == [4] else 'packets'), 'first differing packet %d (pts %d, pic_type %d, %d vs %d bytes); %d of %d packets differ; pic_types of differing packets %s' % (k, x['pts'], x['pic_type'], x['size'], y['size'], nd, len(pa), kinds)
     ra = {r['pts']: r['hash'] for r in a.get('recons', [])}; rb = {r['pts']: r['hash'] for r in b.get('recons', [])}
     for pts in sorted(ra):
         if ra[pts] != rb.get(pts):
